@@ -479,9 +479,16 @@ def nestings(depth):
     for d in range(1, depth + 1):
         for chain in itertools.product(names, repeat=d):
             ok = True
+            mode = 'text'
             for i, c in enumerate(chain):
-                if 'math' in chain[:i] and 'boxmix' not in chain[:i] and c not in IN_MATH:
+                # inside a formula only braces, \begingroup and the box construct may follow (a second $ would close the
+                # formula, not nest in it); the box construct switches back to text
+                if mode == 'math' and c not in IN_MATH:
                     ok = False
+                if c == 'math':
+                    mode = 'math'
+                elif c == 'boxmix':
+                    mode = 'text'
                 if c == 'boxmix' and (i == 0 or chain[i - 1] != 'math'):
                     ok = False      # only directly inside a formula
                 if 'cell' in chain[:i] and c in ('cell',):
